@@ -40,6 +40,11 @@ func genEdgeCase(t *rapid.T) Case {
 		N:    rapid.SampledFrom([]int{1025, 1025, 1100, 1536, 2049, 2100, 3000, 4097}).Draw(t, "edgeN") + rapid.IntRange(0, 3).Draw(t, "edgeOff"),
 		Edge: rapid.SampledFrom([]int{-1, 0, 0, 1, 1, 2}).Draw(t, "edge"),
 		Elem: rapid.SampledFrom([]string{"", "", elem.Str, elem.I16, KindU8, elem.Wide, elem.Ptr}).Draw(t, "edgeElem")}
+	if rapid.IntRange(0, 1).Draw(t, "edgeAbs") == 0 {
+		// a full buffer of a round size (or one off) with the head a few slots from either end
+		c.N = rapid.SampledFrom([]int{1024, 2048, 4096, 4096, 8192, 16384}).Draw(t, "edgeN2") + rapid.IntRange(-1, 1).Draw(t, "edgeOff2")
+		c.Head = rapid.SampledFrom([]int{1, 2, 3, 4, 5, 7, 8, 9, 15, 16, 17, 31, 32, 33, 64, -1, -2, -3, -4, -5, -8, -16, -32}).Draw(t, "edgeHead")
+	}
 	c.Ops = append(c.Ops, Op{K: rapid.SampledFrom([]string{"add", "push"}).Draw(t, "edgeFirst")})
 	c.Ops = append(c.Ops, rapid.SliceOfN(rapid.Custom(func(t *rapid.T) Op { return genOp(t, 0) }), 0, 6).Draw(t, "edgeOps")...)
 	return c
